@@ -284,6 +284,13 @@ def check_stopping(F, run, path, old_name):
         d = sp.to_dnf(D, simplify=False)
         for dj in (d.args if isinstance(d, sp.Or) else (d,)):
             cls = classify_disjunct(dj, step, fvals_of(p.interp))
+            if cls == "residual":
+                # the statement bounds the *distance from the root* by the tolerance: a small residual says nothing about it when the equations are
+                # scaled (|f| < tol far from the root for a flat f; never reached for a steep one) — the step is what has to be tested
+                run.fail("R8.2", path, "success-on-residual:" + dkey(dj), F.loc(b, loop),
+                         "Ok is returned because `%s`: a test on a function value, not on the step (returned iterate − previous iterate = %s); for ill-scaled "
+                         "equations the residual is below the tolerance far from the root, or never gets there" % (dj, str(step)[:80]))
+                continue
             run.check(cls is not None, "R8.2", path, "success:" + dkey(dj), F.loc(b, loop),
                       "Ok is returned because `%s`; no magnitude in it is taken of the step (returned iterate − previous iterate = %s) or of a function value: "
                       "convergence is declared from scalars of single iterates, which can agree while the iterate still moves" % (dj, str(step)[:80]),
